@@ -1,6 +1,5 @@
-(* Proofs/CompileNoPanic.v — C04: the no-panic ladder for compile2.
-   The full statement is false on the model (finding F1, refuted below); the
-   positive pieces are labelled individually. *)
+(* Proofs/CompileNoPanic.v — C04: the no-panic ladder for compile2, first rungs:
+   line/column bounds and the slices that cannot panic when spans are in range. *)
 From Coq Require Import List NArith Lia Bool Sorting.Sorted.
 From HB Require Import Peg.Peg Peg.Grammar Tpl.Compile Proofs.PegFacts.
 Import ListNotations.
@@ -13,13 +12,20 @@ Arguments N.leb : simpl never.
 Arguments N.ltb : simpl never.
 Arguments N.eqb : simpl never.
 
-(* ---------- F1: compile2 can panic ---------- *)
-Theorem compile_panics :
-  exists src site, compile2 src default_opts = CPanic site.
-Proof.
-  exists (`"{{#if a}}A{{~else if b}}B{{/if}}"), (`"parse_name unreachable").
-  vm_compute. reflexivity.
-Qed.
+(* ---------- the former F1 witness now compiles (the chained else accepts `~`) ---------- *)
+Example chain_tilde_compiles :
+  compile2 (`"{{#if a}}A{{~else if b}}B{{/if}}") default_opts =
+  COk (MkT None
+        [ElBlock
+           (MkH (PName (`"if")) [PPath (PathRelative [SegNamed (`"a")] (`"a"))] [] None
+              (Some (MkT None [ElRaw (`"A")] [(1, 10)]))
+              (Some (MkT None
+                       [ElBlock
+                          (MkH (PName (`"if")) [PPath (PathRelative [SegNamed (`"b")] (`"b"))] [] None
+                             (Some (MkT None [ElRaw (`"B")] [(1, 25)])) None true true false)] []))
+              true true false)]
+        [(1, 1)]).
+Proof. vm_compute. reflexivity. Qed.
 
 (* ---------- (i) line/column lie inside the source ---------- *)
 Fixpoint count_lf (s : str) : N :=
